@@ -43,6 +43,9 @@ namespace Cigar
 def flipOp (o : Op) : Op := { o with code := o.code.flip }
 /-- `CIGAR.complement` -/
 def compl (c : Cigar) : Cigar := c.reverse.map flipOp
+/-- the same alignment with the roles of the two sequences exchanged, not their strands: I and D are
+    exchanged, the order is kept (`Edge.overlap` of an E line whose sid1 is the to-side) -/
+def swapRoles (c : Cigar) : Cigar := c.map flipOp
 /-- `CIGAR.length_on_reference` -/
 def refLen (c : Cigar) : Nat := (c.map fun o => if o.code.onRef then o.len else 0).sum
 /-- `CIGAR.length_on_query` -/
